@@ -12,6 +12,12 @@ CHECKS = {
     'C02': dict(tech='TLA+ exact homogeneous/Hamilton model of edge errors and chi^2 (quadratic form in the SE(2) angle atom) evaluated by TLC; states replayed into calc_error/calc_chi2/Graph.calc_chi2 (binding A)',
                 text='Errors and chi^2 are defined in TLA+ independently of the library formulas; TLC evaluates them exactly on lattice cases x an information catalogue with cross terms, ill-conditioned, PSD-singular and indefinite matrices and checks chi2>=0 for PSD information on the model; the code must reproduce e (always) and chi2 (where 32-bit headroom lets TLC evaluate it), and Graph.calc_chi2 must be the sum over edges irrespective of fixed flags and list order.',
                 ref='4 C02', note=L1 + ' chi^2 is compared only on cases whose exact value fits TLC integers (count in evidence).'),
+    'C09': dict(tech='TLA+ rigid-motion model (Hamilton product / rotation matrices) with the group laws model-checked by TLC; every evaluated state replayed into the pose operators (binding A)',
+                text='TLC checks on the model, for every enumerated lattice triple, the homomorphism to homogeneous matrices, two-sided inverse and identity, associativity, the point action and the ominus definition, then the exact results of (+), (-), inverse, point action (PoseRn and ndarray operands), boxplus (also +=) and to_matrix are compared with the real operators as rigid motions (q ~ -q, angles mod 2pi). The oracle is thereby known to be a group and independent of the library expansions.',
+                ref='4 C09', note=L1 + ' boxplus increments restricted to rotational parts with rational sqrt(1-|d|^2) (norm <= 1, incl. exactly 1 for dyadic increments).'),
+    'C10': dict(tech='TLA+ dual-number derivative of each named pose operation along every tangent direction of the named operand, evaluated by TLC; compared with the 12 public Jacobian methods chained with the exact boxplus Jacobian (binding A)',
+                text='For each of the 12 methods x 4 pose kinds the specification differentiates the named operation exactly (forward mode over rationals) w.r.t. the boxplus perturbation of the named operand; the code Jacobian (documented shape asserted) chained with the exact boxplus Jacobian must equal it, the *_compact variants must be the leading rows of the full ones, and results must not alias shared state.',
+                ref='4 C10', note=L1 + ' The component of a 7-column Jacobian normal to the unit sphere is not constrained by the property and not compared.'),
 }
 NA_REASON = 'check not built yet in this round (planned, see DESIGN.md section 4)'
 
